@@ -30,10 +30,10 @@ INV_IDS = [201, 202, 203, 204]
 
 MC_INV = [
     "TypeOK", "Range", "NoneIffNoQualifier", "WeightedMean", "CapacityIsSum", "Monotone", "ScaleInvariant",
-    "Excluded", "PublishedIsCurrent", "CacheNoNaN", "NoStaleData",
+    "Excluded", "PublishedIsCurrent", "CacheNoNaN", "NoStaleData", "AggFollowsStore", "AggCacheNoNaN",
 ]
 
-BASE = dict(NB=2, Caps={0, 1, 2}, Pct={0, 50, 100}, MaxMissing=4, Factors={2}, Mode="states", HMsgs=set(), MaxDepth=0, MaxTicks=0, MaxAge=2)
+BASE = dict(NB=2, Caps={0, 1, 2}, Pct={0, 50, 100}, MaxMissing=4, Factors={2}, Mode="states", HMsgs=set(), MaxDepth=0, MaxTicks=0, MaxAge=2, Warm=2)
 
 
 def _m(cap, soc, lo, hi):
@@ -49,6 +49,9 @@ H_THOROUGH = H_QUICK + [
     _m(0, 50, 0, 100), _m(2, 0, 20, 80), _m(2, 100, 20, 80), _m(1, 20, 20, 100), _m(NAN, NAN, NAN, NAN), _m(2, 80, 0, 100),
 ]
 
+# message alphabet of the wrapper-layer ("pool") exploration
+P_MSGS = [_m(1, 50, 0, 100), _m(2, 100, 20, 80), _m(NAN, 50, 0, 100)]
+
 SCOPES = {
     "quick": dict(
         states=dict(NB=2, Caps={0, 1, 2}, Pct={0, 50, 100}, MaxMissing=1, Factors={2}),
@@ -56,6 +59,10 @@ SCOPES = {
         history_msgs=H_QUICK,
         sim=dict(NB=3, Caps={0, 1, 2}, Pct={0, 20, 50, 80, 100}, Factors={2}, MaxDepth=10, MaxTicks=4),
         sim_num=1600,
+        pool=dict(NB=2, Caps={0, 1, 2}, Pct={0, 20, 50, 80, 100}, Factors={2}, MaxDepth=6, MaxTicks=3),
+        pool_msgs=P_MSGS[:2],
+        poolsim=dict(NB=3, Caps={0, 1, 2}, Pct={0, 20, 50, 80, 100}, Factors={2}, MaxDepth=12, MaxTicks=6),
+        poolsim_num=480,
     ),
     "thorough": dict(
         states=dict(NB=2, Caps={0, 1, 2}, Pct={0, 20, 50, 80, 100}, MaxMissing=1, Factors={2, 3}),
@@ -65,6 +72,10 @@ SCOPES = {
         history_msgs=H_THOROUGH,
         sim=dict(NB=3, Caps={0, 1, 2}, Pct={0, 20, 50, 80, 100}, Factors={2, 3}, MaxDepth=12, MaxTicks=5),
         sim_num=32000,
+        pool=dict(NB=2, Caps={0, 1, 2}, Pct={0, 20, 50, 80, 100}, Factors={2}, MaxDepth=7, MaxTicks=4),
+        pool_msgs=P_MSGS,
+        poolsim=dict(NB=3, Caps={0, 1, 2}, Pct={0, 20, 50, 80, 100}, Factors={2}, MaxDepth=14, MaxTicks=7),
+        poolsim_num=16000,
     ),
 }
 
@@ -333,6 +344,101 @@ def replay_history(case: dict, cfg: dict) -> dict:
     return dict(id=case["id"], kind="hist", steps=steps_out)
 
 
+# ---------------------------------------------------------------------------
+# "pool": the real BatteryPool wrapper over a real BatteryPoolReferenceStore (status channel -> store ->
+# lazily created SendOnUpdate per metric), public receivers of BatteryPool.soc / .capacity
+def replay_pool(case: dict, cfg: dict) -> dict:
+    from frequenz.channels import Broadcast
+    from frequenz.client.microgrid import BatteryComponentState, BatteryData, BatteryRelayState, ComponentCategory
+
+    from frequenz.sdk._internal._channels import ChannelRegistry
+    from frequenz.sdk._internal._constants import MAX_BATTERY_DATA_AGE_SEC, WAIT_FOR_COMPONENT_DATA_SEC
+    from frequenz.sdk.microgrid import connection_manager
+    from frequenz.sdk.microgrid._power_distributing import ComponentPoolStatus
+    from frequenz.sdk.timeseries.battery_pool._battery_pool import BatteryPool
+    from frequenz.sdk.timeseries.battery_pool._battery_pool_reference_store import BatteryPoolReferenceStore
+
+    from .vloop import ManualLoop
+
+    nb = cfg["NB"]
+    ids = IDS[:nb]
+    tick_s = MAX_BATTERY_DATA_AGE_SEC / cfg["MaxAge"]
+    if abs(WAIT_FOR_COMPONENT_DATA_SEC - cfg["Warm"] * tick_s) > 1e-9:
+        raise RuntimeError("WAIT_FOR_COMPONENT_DATA_SEC is not Warm ticks: adapt the Warm constant of the pool scopes")
+    steps_out = []
+    saved = connection_manager._CONNECTION_MANAGER  # pylint: disable=protected-access
+    with ManualLoop() as loop:
+        api = _Api(Broadcast)
+        connection_manager._CONNECTION_MANAGER = _CM(_Graph(nb, ComponentCategory), api)  # pylint: disable=protected-access
+        try:
+            status = Broadcast(name="battery-status", resend_latest=True)
+            store = BatteryPoolReferenceStore(
+                channel_registry=ChannelRegistry(name="verif"),
+                resampler_subscription_sender=Broadcast(name="resampler-subscriptions").new_sender(),
+                batteries_status_receiver=status.new_receiver(limit=1),
+                power_manager_requests_sender=Broadcast(name="pm-requests").new_sender(),
+                power_manager_bounds_subscription_sender=Broadcast(name="pm-bounds").new_sender(),
+                power_distribution_results_fetcher=Broadcast(name="pd-results"),
+                min_update_interval=timedelta(0),
+                batteries_id=set(ids),
+            )
+            pool = BatteryPool(pool_ref_store=store, name=None, priority=5, set_operating_point=False)
+            status_sender = status.new_sender()
+            loop.run_until_idle()
+            latest: dict = {}
+            used: set[str] = set()
+
+            async def consume(name, rx):
+                async for s in rx:
+                    latest[name] = s
+
+            def fv(x, scale=1.0):
+                return math.nan if x == NAN else float(x) * scale
+
+            def ob(name, exp):
+                if name not in used:
+                    return dict(st="off", fp=0, c0=0, c100=0, eq=False)
+                if name not in latest:
+                    return dict(st="nopub", fp=0, c0=0, c100=0, eq=False)
+                return _soc_of_sample(latest[name], exp) if name == "soc" else _cap_of_sample(latest[name], exp)
+
+            for s in case["steps"]:
+                a = s["a"]
+                if a == "init":
+                    pass
+                elif a == "status":
+                    ws = {ids[i] for i, x in enumerate(s["w"]) if x}
+                    loop.run_coro(status_sender.send(ComponentPoolStatus(working=ws, uncertain=set())))
+                elif a == "use":
+                    name = s["m"]
+                    fetcher = pool.soc if name == "soc" else pool.capacity  # the lazily creating properties
+                    loop.create_task(consume(name, fetcher.new_receiver()))
+                    used.add(name)
+                elif a == "msg":
+                    cid = ids[s["b"] - 1]
+                    if cid in api.ch:  # nobody has subscribed to the component's data before the first use
+                        msg = BatteryData(
+                            component_id=cid, timestamp=loop.wall_now(),
+                            soc=fv(s["soc"]), soc_lower_bound=fv(s["lo"]), soc_upper_bound=fv(s["hi"]), capacity=fv(s["cap"], U),
+                            power_inclusion_lower_bound=0.0, power_exclusion_lower_bound=0.0,
+                            power_inclusion_upper_bound=0.0, power_exclusion_upper_bound=0.0, temperature=20.0,
+                            relay_state=BatteryRelayState.CLOSED, component_state=BatteryComponentState.IDLE, errors=[],
+                        )
+                        loop.run_coro(api.ch[cid].new_sender().send(msg))
+                elif a == "tick":
+                    loop.advance(tick_s)
+                else:
+                    raise ValueError(a)
+                loop.run_until_idle()
+                steps_out.append(dict(s, obs=dict(soc=ob("soc", s["exp"]), cap=ob("cap", s["expc"]))))
+            t = loop.create_task(store.stop())
+            loop.run_until_idle()
+            del t
+        finally:
+            connection_manager._CONNECTION_MANAGER = saved  # pylint: disable=protected-access
+    return dict(id=case["id"], kind="pool", steps=steps_out)
+
+
 _CFG: dict = {}
 
 
@@ -345,7 +451,12 @@ def _worker(chunk, out_path):
     calc = Calc(cfg["NB"])
     with open(out_path, "w") as f:
         for c in chunk:
-            rec = replay_history(c, cfg) if c["kind"] == "hist" else replay_state(c, calc)
+            if c["kind"] == "hist":
+                rec = replay_history(c, cfg)
+            elif c["kind"] == "pool":
+                rec = replay_pool(c, cfg)
+            else:
+                rec = replay_state(c, calc)
             f.write(json.dumps(rec, separators=(",", ":")) + "\n")
 
 
@@ -370,7 +481,11 @@ def _emitted_batches(path: Path, mode: str, simulate, cov: dict, size: int):
     Duplicate lines are dropped; per-action counts are accumulated in `cov` (TLC's own -coverage option
     slows this model down four-fold, so the counts come from the emitted transitions themselves).
     """
-    key = {"msg": "MsgStep", "work": "WorkStep", "tick": "TickStep"}
+    pool = mode in ("pool", "poolsim")
+    key = (
+        {"status": "StatusStep", "use": "UseStep", "msg": "PoolMsgStep", "tick": "PoolTickStep"}
+        if pool else {"msg": "MsgStep", "work": "WorkStep", "tick": "TickStep"}
+    )
     seen: set[int] = set()
     batch: list[dict] = []
     n = 0
@@ -394,7 +509,7 @@ def _emitted_batches(path: Path, mode: str, simulate, cov: dict, size: int):
                 else:
                     for st in v[1:] if simulate else v[-1:]:
                         cov[key[st["a"]]] = cov.get(key[st["a"]], 0) + 1
-                    batch.append(dict(id=n, kind="hist", steps=v))
+                    batch.append(dict(id=n, kind="pool" if pool else "hist", steps=v))
                 if len(batch) >= size:
                     yield batch
                     batch = []
@@ -416,14 +531,18 @@ def _stage(rep: Report, prop: str, name: str, consts: dict, work: Path, mode: st
         depth=(consts["MaxDepth"] + 2 if simulate else None), seed=(SEED + 18 if simulate else None), timeout=timeout,
         # the depth bound reads the hidden history: only a single worker explores strictly breadth-first, which
         # makes the set of emitted histories deterministic (shortest path to every state)
-        **({"workers": 1} if mode == "history" else {}), heap="4g",
+        **({"workers": 1} if mode in ("history", "pool") else {}), heap="4g",
     )
     if not res.ok:
         rep.add_mc(name, res, _printable(consts), inv, mode=("simulate " + simulate) if simulate else "exhaustive")
         rep.fail(f"{prop}.MC.{'/'.join(res.violated)}", dict(stage=name, constants=str(_printable(consts))), res.counterexample[:3000])
         return
     _CFG = dict(consts)
-    cov: dict[str, int] = {"InstallStep": 0} if mode == "states" else {"MsgStep": 0, "WorkStep": 0, "TickStep": 0}
+    cov: dict[str, int] = (
+        {"InstallStep": 0} if mode == "states"
+        else {"StatusStep": 0, "UseStep": 0, "PoolMsgStep": 0, "PoolTickStep": 0} if mode in ("pool", "poolsim")
+        else {"MsgStep": 0, "WorkStep": 0, "TickStep": 0}
+    )
     run_s = val_s = 0.0
     total = done = val_states = 0
     ex: dict[str, int] = {}
@@ -435,7 +554,7 @@ def _stage(rep: Report, prop: str, name: str, consts: dict, work: Path, mode: st
         bd.mkdir(parents=True, exist_ok=True)
         t_run = Timer()
         # one JVM per shard in VAL: few shards for small stages (JVM start-up dominates there)
-        weight = sum(len(c["steps"]) if c["kind"] == "hist" else 1 for c in part)
+        weight = sum(len(c["steps"]) if c["kind"] != "state" else 1 for c in part)
         shards = replay_parallel(_worker, part, bd, nproc=max(1, min(NCPU, weight // 2500)))
         run_s += t_run.s()
         t_val = Timer()
@@ -494,7 +613,7 @@ def _stage(rep: Report, prop: str, name: str, consts: dict, work: Path, mode: st
 
 # antecedents that must have been exercised by at least one validated record
 MUST_EXERCISE = ["wm", "zerototal", "none", "mono", "scale", "excluded", "eqlim", "outside", "missing", "notworking", "cap",
-                 "evict", "nandrop", "timeout", "cachecmp", "resume"]
+                 "evict", "nandrop", "timeout", "cachecmp", "resume", "lateuse", "latepub", "usenostatus", "poolpub"]
 
 
 def _cpu_s() -> float:
@@ -520,6 +639,9 @@ def run(prop: str, tier: str) -> int:
         "then only demands a value in [0, 100] (the code's 0.0 is recorded under X18.ZeroTotalIsZero, not judged)",
         "history stages: fake API channels and component graph, virtual-time loop, min_update_interval = 0; the cache "
         "projection reads SendOnUpdate._cached_metrics (skipped if the attribute disappears)",
+        "pool stages: a real BatteryPool over a real BatteryPoolReferenceStore constructed directly (what "
+        "microgrid.new_battery_pool / the data pipeline wire up - status tracker, power manager, resampler - is replaced "
+        "by plain channels); status messages carry working sets only (uncertain = {})",
     ]
     only = [x for x in os.environ.get("VERIF_C18_STAGES", "").split(",") if x]  # development aid: run some stages only
 
@@ -536,6 +658,10 @@ def run(prop: str, tier: str) -> int:
     n = sc["sim_num"]
     if want("sim"):
         _stage(rep, prop, "sim", sc["sim"], work, "sim", simulate=f"num={max(1, n // 16)}")
+    if want("pool"):
+        _stage(rep, prop, "pool", dict(sc["pool"], HMsgs=sc["pool_msgs"]), work, "pool")
+    if want("poolsim"):
+        _stage(rep, prop, "poolsim", sc["poolsim"], work, "poolsim", simulate=f"num={max(1, sc['poolsim_num'] // 16)}")
     rep.extra["exercised"] = dict(EX_TOTAL)
     rep.extra["cpu_s"] = round(_cpu_s() - cpu0, 1)  # CPU seconds of this check incl. TLC (wall time depends on machine load)
     if only:
